@@ -309,12 +309,16 @@ pub fn run(ctx: &Ctx) -> Rep {
                     const WS: [char; 25] = [' ', '\t', '\n', '\u{0B}', '\u{0C}', '\r', '\u{85}', '\u{A0}', '\u{1680}', '\u{2000}', '\u{2001}', '\u{2002}', '\u{2003}', '\u{2004}', '\u{2005}', '\u{2006}', '\u{2007}', '\u{2008}', '\u{2009}', '\u{200A}', '\u{2028}', '\u{2029}', '\u{202F}', '\u{205F}', '\u{3000}'];
                     s.push(if rng.chance(1, 2) { ' ' } else { WS[rng.below(25) as usize] });
                 }
-                match rng.below(6) {
+                match rng.below(8) {
                     0 => s.push_str("xx"),
                     1 => s.push('A'),
-                    _ => {
+                    r => {
                         s.push(model::RANK_CHARS[rng.below(13) as usize]);
                         s.push("SHDCshdc♠♥♦♣".chars().nth(rng.below(12) as usize).unwrap());
+                        // a token is a card by its first two characters, whatever follows them
+                        if r >= 6 {
+                            s.push_str(["\u{FE0F}", ",", "xyz", "x", ",KS", "-----", "10", "\u{301}\u{301}"][rng.below(8) as usize]);
+                        }
                     }
                 }
             }
